@@ -1,1 +1,473 @@
-fn main(){}
+//! Correspondence + oracle harness for the sml-rs verification (see /verif/DESIGN.md).
+//!
+//!   harness run   <PROP> --tier quick|thorough --seed N --model PATH --out DIR [--corpus DIR] [--budget-scale F]
+//!   harness replay <PROP> --model PATH --case FILE
+//!   harness one   <line>            (run one request line on the implementation, print the response)
+
+mod alloc_count;
+mod gen;
+mod implrun;
+mod model;
+mod oracle;
+mod props;
+mod spec;
+mod util;
+
+use std::collections::{BTreeMap, HashSet};
+use std::io::Write;
+use std::os::unix::fs::FileExt;
+use std::sync::atomic::{AtomicU64, Ordering};
+use std::sync::Arc;
+use std::time::{Duration, Instant};
+
+use oracle::ImplRes;
+use props::{Case, Tier};
+use util::*;
+
+#[global_allocator]
+static GLOBAL: alloc_count::Counting = alloc_count::Counting;
+
+#[derive(Clone, Debug)]
+struct Failure {
+    kind: &'static str, // "oracle" | "correspondence"
+    case: Case,
+    impl_outs: Vec<String>,
+    model_outs: Vec<String>,
+    detail: String,
+}
+
+#[derive(Default)]
+struct Stats {
+    cases: usize,
+    lines: usize,
+    distinct: HashSet<u64>,
+    nontrivial: usize,
+    families: BTreeMap<String, usize>,
+    kinds: BTreeMap<String, usize>,
+    len_hist: BTreeMap<usize, usize>,
+    samples: Vec<String>,
+    oracle_failures: usize,
+    disagreements: usize,
+}
+
+fn arg<'a>(args: &'a [String], name: &str) -> Option<&'a str> {
+    args.iter().position(|a| a == name).and_then(|i| args.get(i + 1)).map(|s| s.as_str())
+}
+
+fn case_json(c: &Case) -> String {
+    format!(
+        "{{\"family\":{},\"lines\":[{}],\"aux\":[{}]}}",
+        json_str(c.family),
+        c.lines.iter().map(|l| json_str(l)).collect::<Vec<_>>().join(","),
+        c.aux.iter().map(|l| json_str(l)).collect::<Vec<_>>().join(",")
+    )
+}
+
+/// minimal JSON reader for the case files this program writes itself
+fn parse_case_file(text: &str) -> Option<Case> {
+    fn strings_after(text: &str, key: &str) -> Option<Vec<String>> {
+        let k = text.find(&format!("\"{}\":[", key))? + key.len() + 4;
+        let mut out = Vec::new();
+        let b = text.as_bytes();
+        let mut i = k;
+        loop {
+            while i < b.len() && (b[i] == b',' || b[i] == b' ' || b[i] == b'\n') {
+                i += 1;
+            }
+            if i >= b.len() || b[i] == b']' {
+                break;
+            }
+            if b[i] != b'"' {
+                return None;
+            }
+            i += 1;
+            let mut s = String::new();
+            while i < b.len() && b[i] != b'"' {
+                if b[i] == b'\\' && i + 1 < b.len() {
+                    i += 1;
+                    match b[i] {
+                        b'n' => s.push('\n'),
+                        b't' => s.push('\t'),
+                        c => s.push(c as char),
+                    }
+                } else {
+                    s.push(b[i] as char);
+                }
+                i += 1;
+            }
+            i += 1;
+            out.push(s);
+        }
+        Some(out)
+    }
+    let fam_k = text.find("\"family\":\"")? + 10;
+    let fam_e = text[fam_k..].find('"')? + fam_k;
+    let family: &'static str = Box::leak(text[fam_k..fam_e].to_string().into_boxed_str());
+    Some(Case { family, lines: strings_after(text, "lines")?, aux: strings_after(text, "aux").unwrap_or_default() })
+}
+
+/// rule for "non-trivial": the implementation's responses contain at least one result that is not
+/// the empty answer (an event, a payload, an error, a parsed value)
+fn is_nontrivial(outs: &[String]) -> bool {
+    outs.iter().any(|o| o != "-" && o != "- | N N" && o != "N | N N" && !o.is_empty())
+}
+
+fn check_case(prop: &str, case: &Case, impl_outs: &[implrun::ImplOut], model_outs: &[String]) -> Option<Failure> {
+    let res: Vec<ImplRes> = impl_outs.iter().map(|o| ImplRes { text: &o.text, alloc_bytes: o.alloc_bytes, alloc_calls: o.alloc_calls }).collect();
+    let texts: Vec<String> = impl_outs.iter().map(|o| o.text.clone()).collect();
+    if let Err(d) = oracle::oracle(prop, case, &res) {
+        return Some(Failure { kind: "oracle", case: case.clone(), impl_outs: texts, model_outs: model_outs.to_vec(), detail: d });
+    }
+    for (k, line) in case.lines.iter().enumerate() {
+        let pi = oracle::project(prop, line, &texts[k]);
+        let pm = oracle::project(prop, line, &model_outs[k]);
+        if pi != pm {
+            // C04: the model is proved equivalent to the grammar; the implementation returning data the
+            // grammar does not yield (or different data) is a concrete soundness violation
+            let kind = if prop == "C04" && pi.starts_with("ok:") { "oracle" } else { "correspondence" };
+            return Some(Failure {
+                kind,
+                case: case.clone(),
+                impl_outs: texts.clone(),
+                model_outs: model_outs.to_vec(),
+                detail: format!("line {} `{}`: implementation `{}` vs model `{}`", k, oracle::short(line), oracle::short(&pi), oracle::short(&pm)),
+            });
+        }
+    }
+    None
+}
+
+struct Worker {
+    started: AtomicU64, // millis since run start of the current case, 0 = idle
+}
+
+fn run_cases(
+    prop: &str,
+    cases: Vec<Case>,
+    model: &str,
+    inflight: Option<&std::fs::File>,
+    wk: &Worker,
+    t0: Instant,
+    stats: &mut Stats,
+    fails: &mut Vec<Failure>,
+) -> Result<(), String> {
+    // process in chunks to bound memory
+    for chunk in cases.chunks(20_000) {
+        let mut impl_outs: Vec<Vec<implrun::ImplOut>> = Vec::with_capacity(chunk.len());
+        let mut all_lines: Vec<String> = Vec::new();
+        for c in chunk {
+            let mut outs = Vec::with_capacity(c.lines.len());
+            for l in &c.lines {
+                if let Some(f) = inflight {
+                    let b = l.as_bytes();
+                    let n = b.len().min(60_000);
+                    let mut buf = Vec::with_capacity(n + 9);
+                    buf.extend_from_slice(format!("{:08}\n", n).as_bytes());
+                    buf.extend_from_slice(&b[..n]);
+                    let _ = f.write_all_at(&buf, 0);
+                }
+                wk.started.store(t0.elapsed().as_millis() as u64 + 1, Ordering::Relaxed);
+                outs.push(implrun::run(l));
+                wk.started.store(0, Ordering::Relaxed);
+                all_lines.push(l.clone());
+            }
+            impl_outs.push(outs);
+        }
+        let model_outs = model::run_batch(model, &all_lines)?;
+        let mut k = 0;
+        for (c, io) in chunk.iter().zip(impl_outs.iter()) {
+            let mo = &model_outs[k..k + c.lines.len()];
+            k += c.lines.len();
+            stats.cases += 1;
+            stats.lines += c.lines.len();
+            let key = fnv(c.lines.join("\n").as_bytes());
+            let texts: Vec<String> = io.iter().map(|o| o.text.clone()).collect();
+            if stats.distinct.insert(key) && is_nontrivial(&texts) {
+                stats.nontrivial += 1;
+            }
+            *stats.families.entry(c.family.to_string()).or_default() += 1;
+            let total_len: usize = c.lines.iter().map(|l| l.len()).sum();
+            *stats.len_hist.entry((total_len / 2).next_power_of_two()).or_default() += 1;
+            for t in &texts {
+                for tokn in t.split(|ch: char| ch == ' ' || ch == ';').take(64) {
+                    let kind: String = tokn.split(':').filter(|p| p.parse::<u64>().is_err()).next().unwrap_or("").chars().take_while(|ch| ch.is_ascii_alphabetic()).collect();
+                    if !kind.is_empty() {
+                        *stats.kinds.entry(kind).or_default() += 1;
+                    }
+                }
+            }
+            if stats.samples.len() < 3 && is_nontrivial(&texts) && total_len < 600 {
+                stats.samples.push(format!("{{\"request\":{},\"impl\":{},\"model\":{}}}", json_str(&c.lines[0]), json_str(&oracle::short(&texts[0])), json_str(&oracle::short(&mo[0]))));
+            }
+            if let Some(f) = check_case(prop, c, io, mo) {
+                if f.kind == "oracle" {
+                    stats.oracle_failures += 1;
+                } else {
+                    stats.disagreements += 1;
+                }
+                if fails.len() < 50 {
+                    fails.push(f);
+                }
+            }
+        }
+    }
+    Ok(())
+}
+
+fn run_one_case(prop: &str, case: &Case, model: &str) -> Result<Option<Failure>, String> {
+    let io: Vec<implrun::ImplOut> = case.lines.iter().map(|l| implrun::run(l)).collect();
+    let mo = model::run_batch(model, &case.lines)?;
+    Ok(check_case(prop, case, &io, &mo))
+}
+
+/// delta-debugging over the byte-string tokens of the first line (cases without aux only)
+fn shrink(prop: &str, f: &Failure, model: &str) -> Failure {
+    if !f.case.aux.is_empty() || f.case.lines.len() > 4 {
+        return f.clone();
+    }
+    let mut best = f.clone();
+    let mut budget = 250;
+    'outer: loop {
+        let toks: Vec<String> = best.case.lines[0].split(' ').map(|s| s.to_string()).collect();
+        for (ti, t) in toks.iter().enumerate().skip(1) {
+            let bytes = match untok(t) {
+                Some(b) if b.len() >= 2 && t.chars().all(|c| c.is_ascii_hexdigit() || c == ',' || c == '*') => b,
+                _ => continue,
+            };
+            let mut chunk = bytes.len() / 2;
+            while chunk >= 1 {
+                let mut start = 0;
+                while start + chunk <= bytes.len() {
+                    if budget == 0 {
+                        break 'outer;
+                    }
+                    budget -= 1;
+                    let mut nb = bytes.clone();
+                    nb.drain(start..start + chunk);
+                    let mut nt = toks.clone();
+                    nt[ti] = tok(&nb);
+                    let newline = nt.join(" ");
+                    // keep the other lines in step if they carry the same token
+                    let mut c = best.case.clone();
+                    for l in c.lines.iter_mut() {
+                        *l = l.replace(t.as_str(), &tok(&nb));
+                    }
+                    c.lines[0] = newline;
+                    if let Ok(Some(nf)) = run_one_case(prop, &c, model) {
+                        if nf.kind == best.kind {
+                            best = nf;
+                            continue 'outer;
+                        }
+                    }
+                    start += chunk;
+                }
+                chunk /= 2;
+            }
+        }
+        break;
+    }
+    best
+}
+
+fn failure_json(f: &Failure) -> String {
+    format!(
+        "{{\"kind\":{},\"detail\":{},\"case\":{},\"impl\":[{}],\"model\":[{}]}}",
+        json_str(f.kind),
+        json_str(&f.detail),
+        case_json(&f.case),
+        f.impl_outs.iter().map(|s| json_str(&oracle::short(s))).collect::<Vec<_>>().join(","),
+        f.model_outs.iter().map(|s| json_str(&oracle::short(s))).collect::<Vec<_>>().join(",")
+    )
+}
+
+fn load_corpus(dir: &str) -> Vec<Case> {
+    let mut v = Vec::new();
+    if let Ok(rd) = std::fs::read_dir(dir) {
+        let mut paths: Vec<_> = rd.filter_map(|e| e.ok()).map(|e| e.path()).collect();
+        paths.sort();
+        for p in paths {
+            if let Ok(t) = std::fs::read_to_string(&p) {
+                if let Some(c) = parse_case_file(&t) {
+                    v.push(c);
+                }
+            }
+        }
+    }
+    v
+}
+
+fn cmd_run(args: &[String]) -> i32 {
+    let prop = args[0].as_str();
+    let tier = Tier { thorough: arg(args, "--tier") == Some("thorough") };
+    let seed: u64 = arg(args, "--seed").and_then(|s| s.parse().ok()).unwrap_or(1);
+    let model = arg(args, "--model").unwrap_or("/verif/lean/.lake/build/bin/smlmodel").to_string();
+    let outdir = arg(args, "--out").unwrap_or("/verif/evidence/tmp").to_string();
+    let corpus = arg(args, "--corpus").map(|s| s.to_string());
+    let extended = args.iter().any(|a| a == "--extended");
+    let _ = std::fs::create_dir_all(&outdir);
+    let nw: usize = arg(args, "--workers").and_then(|s| s.parse().ok()).unwrap_or(16);
+    let t0 = Instant::now();
+
+    let workers: Vec<Arc<Worker>> = (0..nw).map(|_| Arc::new(Worker { started: AtomicU64::new(0) })).collect();
+    // watchdog: a case running longer than 30 s is a hang
+    {
+        let ws = workers.clone();
+        let od = outdir.clone();
+        std::thread::spawn(move || loop {
+            std::thread::sleep(Duration::from_millis(500));
+            let now = t0.elapsed().as_millis() as u64;
+            for (i, w) in ws.iter().enumerate() {
+                let s = w.started.load(Ordering::Relaxed);
+                if s != 0 && now > s + 30_000 {
+                    let _ = std::fs::write(format!("{}/hang", od), format!("{}", i));
+                    std::process::exit(3);
+                }
+            }
+        });
+    }
+
+    let mut handles = Vec::new();
+    for w in 0..nw {
+        let prop = prop.to_string();
+        let model = model.clone();
+        let outdir = outdir.clone();
+        let corpus = corpus.clone();
+        let wk = workers[w].clone();
+        let thorough = tier.thorough;
+        let h = std::thread::Builder::new().stack_size(256 << 20).spawn(move || {
+            let tier = Tier { thorough };
+            let mut stats = Stats::default();
+            let mut fails = Vec::new();
+            let inflight = std::fs::OpenOptions::new().create(true).write(true).truncate(true).open(format!("{}/inflight.{}", outdir, w)).ok();
+            let mut cases = Vec::new();
+            if w == 0 {
+                if let Some(c) = &corpus {
+                    cases.extend(load_corpus(c));
+                }
+            }
+            let s = if extended { seed.wrapping_add(0x5eed_0000) } else { seed };
+            cases.extend(props::generate(&prop, &tier, s, w, nw));
+            let r = run_cases(&prop, cases, &model, inflight.as_ref(), &wk, t0, &mut stats, &mut fails);
+            let _ = std::fs::remove_file(format!("{}/inflight.{}", outdir, w));
+            (stats, fails, r)
+        });
+        handles.push(h.unwrap());
+    }
+    let mut total = Stats::default();
+    let mut fails: Vec<Failure> = Vec::new();
+    let mut infra: Option<String> = None;
+    for h in handles {
+        match h.join() {
+            Ok((s, f, r)) => {
+                if let Err(e) = r {
+                    infra = Some(e);
+                }
+                total.cases += s.cases;
+                total.lines += s.lines;
+                total.nontrivial += s.distinct.iter().filter(|k| !total.distinct.contains(k)).count().min(s.nontrivial);
+                total.distinct.extend(s.distinct);
+                for (k, v) in s.families {
+                    *total.families.entry(k).or_default() += v;
+                }
+                for (k, v) in s.kinds {
+                    *total.kinds.entry(k).or_default() += v;
+                }
+                for (k, v) in s.len_hist {
+                    *total.len_hist.entry(k).or_default() += v;
+                }
+                if total.samples.len() < 4 {
+                    total.samples.extend(s.samples);
+                }
+                total.oracle_failures += s.oracle_failures;
+                total.disagreements += s.disagreements;
+                fails.extend(f);
+            }
+            Err(_) => infra = Some("worker thread panicked".into()),
+        }
+    }
+    if let Some(e) = &infra {
+        eprintln!("ERROR {}", e);
+        let _ = std::fs::write(format!("{}/result.json", outdir), format!("{{\"error\":{}}}", json_str(e)));
+        return 2;
+    }
+    // choose the failure to report: an oracle failure beats a correspondence disagreement
+    fails.sort_by_key(|f| (if f.kind == "oracle" { 0 } else { 1 }, f.case.lines.iter().map(|l| l.len()).sum::<usize>()));
+    let reported = fails.first().map(|f| shrink(prop, f, &model));
+    let map_json = |m: &BTreeMap<String, usize>| format!("{{{}}}", m.iter().map(|(k, v)| format!("{}:{}", json_str(k), v)).collect::<Vec<_>>().join(","));
+    let hist_json = format!("{{{}}}", total.len_hist.iter().map(|(k, v)| format!("\"<={}\":{}", k, v)).collect::<Vec<_>>().join(","));
+    let json = format!(
+        "{{\"property\":{},\"tier\":{},\"seed\":{},\"cases\":{},\"lines\":{},\"distinct\":{},\"distinct_nontrivial\":{},\"families\":{},\"result_kinds\":{},\"request_length_hist\":{},\"samples\":[{}],\"oracle_failures\":{},\"model_disagreements\":{},\"failure\":{},\"wall_s\":{:.2}}}",
+        json_str(prop),
+        json_str(if tier.thorough { "thorough" } else { "quick" }),
+        seed,
+        total.cases,
+        total.lines,
+        total.distinct.len(),
+        total.nontrivial,
+        map_json(&total.families),
+        map_json(&total.kinds),
+        hist_json,
+        total.samples.join(","),
+        total.oracle_failures,
+        total.disagreements,
+        reported.as_ref().map(failure_json).unwrap_or("null".into()),
+        t0.elapsed().as_secs_f64()
+    );
+    let _ = std::fs::write(format!("{}/result.json", outdir), json);
+    match reported {
+        None => 0,
+        Some(_) => 1,
+    }
+}
+
+fn cmd_replay(args: &[String]) -> i32 {
+    let prop = args[0].as_str();
+    let model = arg(args, "--model").unwrap_or("/verif/lean/.lake/build/bin/smlmodel").to_string();
+    let file = arg(args, "--case").expect("--case FILE");
+    let text = std::fs::read_to_string(file).expect("cannot read case file");
+    let case = match parse_case_file(&text) {
+        Some(c) => c,
+        None => {
+            println!("replay file has no case (proof obligation failure without failing input?)");
+            return 2;
+        }
+    };
+    let io: Vec<implrun::ImplOut> = case.lines.iter().map(|l| implrun::run(l)).collect();
+    let mo = model::run_batch(&model, &case.lines).unwrap_or_else(|e| vec![e; case.lines.len()]);
+    for (k, l) in case.lines.iter().enumerate() {
+        println!("request  {}", l);
+        println!("  impl   {}", io[k].text);
+        println!("  model  {}", mo.get(k).cloned().unwrap_or_default());
+    }
+    match check_case(prop, &case, &io, &mo) {
+        None => {
+            println!("verdict: property holds on this case, implementation and model agree");
+            0
+        }
+        Some(f) => {
+            println!("verdict: {} failure: {}", f.kind, f.detail);
+            1
+        }
+    }
+}
+
+fn main() {
+    std::panic::set_hook(Box::new(|_| {}));
+    let args: Vec<String> = std::env::args().skip(1).collect();
+    let code = match args.first().map(|s| s.as_str()) {
+        Some("run") => cmd_run(&args[1..]),
+        Some("replay") => cmd_replay(&args[1..]),
+        Some("one") => {
+            let line = args[1..].join(" ");
+            let o = implrun::run(&line);
+            println!("{}", o.text);
+            let _ = std::io::stdout().flush();
+            0
+        }
+        _ => {
+            eprintln!("usage: harness run|replay|one …");
+            2
+        }
+    };
+    std::process::exit(code);
+}
